@@ -16,6 +16,10 @@
 #include "nmtools/array/array/ufuncs/add.hpp"
 #include "nmtools/array/array/ufuncs/multiply.hpp"
 #include "nmtools/array/array/ufuncs/subtract.hpp"
+#include "nmtools/array/array/ufuncs/sqrt.hpp"
+#include "nmtools/array/array/ufuncs/floor.hpp"
+#include "nmtools/array/array/ufuncs/ceil.hpp"
+#include <cmath>
 #include "nmtools/utility/unwrap.hpp"
 namespace simd = na::simd; using nm::None;
 template <size_t... E> using iarr = na::ndarray_t<std::array<int,(E * ... * 1)>, std::array<size_t,sizeof...(E)>>;
@@ -77,6 +81,25 @@ void ob_c12c_outer(const rarr<int,NA>& a, const rarr<int,NB>& b, const rarr<int,
         OBLIGE("C12.eval.outer.element_is_lhs_i_op_rhs_j", (unsigned)out(I.value, J.value) == (unsigned)a(I.value) * (unsigned)b(J.value), NA, NB, I.value*10+J.value);
     }); });
 }
+// ---- unary ops (sqrt / floor / ceil): element i is the scalar function of element i, bit for bit (compiled with -fno-math-errno so that
+// the two calls of the same libm function on the same argument are one value for LLVM)
+template <class T, size_t N, int OP>
+void ob_c12c_unary(const tarr<T,N>& a)
+{
+    PINT(a, N);
+    auto mr = [&](){ if constexpr (OP == 0) return na::sqrt(a, C12_CTX); else if constexpr (OP == 1) return na::floor(a, C12_CTX); else return na::ceil(a, C12_CTX); }();
+    constexpr long tag = (long)sizeof(T) * 10 + OP;
+    OBLIGE("C12.eval.has_value", nm::has_value(mr), tag, N);
+    auto r = nm::unwrap(mr);
+    OBLIGE("C12.eval.unary.shape", cv::shape_is<N>(r), tag, N);
+    if (cv::shape_is<N>(r))
+        for_<N>([&](auto I){
+            const T x = a(I.value); const T want = OP == 0 ? std::sqrt(x) : OP == 1 ? std::floor(x) : std::ceil(x);
+            OBLIGE("C12.eval.unary.element_is_the_scalar_function_of_the_element", same_val<T>((T)r(I.value), want), tag, N, I.value);
+        });
+}
+#define U1(T,N,OP) template void ob_c12c_unary<T,N,OP>(const tarr<T,N>&);
+U1(float,1,0) U1(float,5,0) U1(float,9,1) U1(float,4,2) U1(double,3,0) U1(double,5,1) U1(double,2,2)
 #define B1(T,N,OP) template void ob_c12c_binary1<T,N,OP>(const tarr<T,N>&, const tarr<T,N>&);
 B1(int,1,0) B1(int,3,0) B1(int,4,1) B1(int,5,2) B1(int,9,0) B1(float,1,0) B1(float,4,0) B1(float,5,1) B1(float,7,2) B1(float,9,0) B1(double,1,0) B1(double,3,1) B1(double,5,0)
 #define B2(T,R,C,LR,LC,RR,RC) template void ob_c12c_binary2<T,R,C,LR,LC,RR,RC>(const rarr<T,LR,LC>&, const rarr<T,RR,RC>&, const rarr<T,R,C>&);
